@@ -143,7 +143,8 @@ def handshake(ctx, kex, strict_c, strict_s, edit, short_timeout=False, follows=N
     return obs
 
 
-def rekey_session(role, peer_initial_strict, peer_rekey_marker, initiators, marker_pos=None, kex_names=None):
+def rekey_session(role, peer_initial_strict, peer_rekey_marker, initiators, marker_pos=None, kex_names=None,
+                  cipher=None, mac=None):
     """initial handshake plus re-exchanges against a peer tool that follows the kex-strict specification whatever
     the tree under test does (the marker only counts in the first KEXINIT) and that sends or omits the marker in
     its later KEXINITs as told"""
@@ -155,6 +156,10 @@ def rekey_session(role, peer_initial_strict, peer_rekey_marker, initiators, mark
     a.link(b)
     keep = kex_names or [kex]
     disabled = {"kex": [k for k in Transport._preferred_kex if k not in keep]}
+    if cipher:
+        disabled["ciphers"] = [c for c in Transport._preferred_ciphers if c != cipher]
+    if mac:
+        disabled["macs"] = [m for m in Transport._preferred_macs if m != mac]
     sub_strict, = (True,)
     tc = Transport(a, disabled_algorithms=disabled, strict_kex=(sub_strict if role == "client" else peer_initial_strict))
     ts = Transport(b, disabled_algorithms=disabled, strict_kex=(sub_strict if role == "server" else peer_initial_strict))
@@ -198,6 +203,7 @@ def rekey_session(role, peer_initial_strict, peer_rekey_marker, initiators, mark
             t.close()
         return out
     out = {"role": role, "marker_pos": marker_pos, "kex_list_length": len(keep),
+           "cipher": sub.remote_cipher, "mac": sub.remote_mac,
            "peer_initial_strict": peer_initial_strict, "peer_rekey_marker": peer_rekey_marker,
            "initiators": list(initiators), "flags": [1 if sub.agreed_on_strict_kex else 0], "rekeys_ok": []}
     peer.advertise_strict_kex = peer_rekey_marker
@@ -479,13 +485,25 @@ def run(ctx):
                 [0, 1, len(names) // 2, len(names) - 1, len(names), len(names) + 1]
             for pos in positions:
                 rk_jobs.append((role, True, True, ("peer",), pos, names))
-    for role, pis, prm, ini, mpos, names in rk_jobs:
-        o = rekey_session(role, pis, prm, ini, mpos, names)
-        case = {k: o[k] for k in ("role", "peer_initial_strict", "peer_rekey_marker", "initiators", "flags",
-                                  "rekeys_ok", "err", "marker_pos", "kex_list_length")}
+    # the negotiated cipher family (ctr, cbc, gcm = AEAD) and an encrypt-then-MAC digest: counters after every NEWKEYS
+    for role in ("client", "server"):
+        for ciph, mac in (("aes128-gcm@openssh.com", None), ("aes256-gcm@openssh.com", None), ("aes128-cbc", None),
+                          ("aes256-ctr", "hmac-sha2-256-etm@openssh.com")):
+            rk_jobs.append((role, True, True, ("peer", "sub"), None, None, ciph, mac))
+        rk_jobs.append((role, False, False, ("peer",), None, None, "aes128-gcm@openssh.com", None))
+    for job in rk_jobs:
+        role, pis, prm, ini, mpos, names = job[:6]
+        ciph, mac = (job[6], job[7]) if len(job) > 6 else (None, None)
+        o = rekey_session(role, pis, prm, ini, mpos, names, ciph, mac)
+        if ciph:
+            ctx.dist("rekey-cipher:%s%s" % (ciph, "+" + mac if mac else ""))
+            if o.get("cipher") != ciph and not o.get("handshake_failed"):
+                raise InfraError("cipher %s not negotiated (%s)" % (ciph, o.get("cipher")))
+        case = {k: o.get(k) for k in ("role", "peer_initial_strict", "peer_rekey_marker", "initiators", "flags",
+                                      "rekeys_ok", "err", "marker_pos", "kex_list_length", "cipher", "mac")}
         if mpos is not None:
             ctx.dist("marker-position:%d-of-%d" % (mpos, o["kex_list_length"]))
-        ctx.case(("rekey", role, pis, prm, ini, mpos, len(names or [1])), True)
+        ctx.case(("rekey", role, pis, prm, ini, mpos, len(names or [1]), ciph, mac), True)
         ctx.dist("rekey:initial-%s:marker-%s" % ("strict" if pis else "plain", "sent" if prm else "omitted"))
         if o.get("handshake_failed"):
             # both ends offered strict mode and still the session did not come up (or died at the first packets):
